@@ -15,7 +15,8 @@ VARIABLES v_lvl, v_idx
 Ctx == ("x" :> Str(S2B("X"))) @@ ("a" :> Bool(TRUE))
 
 Chunks == { <<>>, S2B("a"), <<195, 169>>, <<226, 130, 172>>, <<10>>, <<13, 10>>, S2B("{"), S2B("}"), S2B("%"), S2B("#"),
-            S2B("}}"), S2B("%}"), S2B("#}"), S2B("-"), S2B(" "), S2B("{ {"), S2B("a{b}c"), <<240, 159, 152, 128, 9>> }
+            S2B("}}"), S2B("%}"), S2B("#}"), S2B("-"), S2B(" "), S2B("{ {"), S2B("a{b}c"), <<240, 159, 152, 128, 9>>,
+            S2B("-#}"), S2B("-%}"), S2B("-}}") }        \* closing delimiters with a marker, as literal text
 BeforeOK(ch) == ch = <<>> \/ ch[Len(ch)] # 123      \* does not end in '{'
 
 (* a piece: [stmts, out, defs] *)
@@ -50,6 +51,11 @@ Around(p) == Cat(Cat(ChunkP(S2B("a")), p), ChunkP(S2B("b")))
 Skeletons ==
   { Cat(Cat(ChunkP(c1), s), ChunkP(c2)) : c1 \in {c \in Chunks : BeforeOK(c)}, s \in Simple, c2 \in Chunks }
   \cup { ChunkP(c) : c \in Chunks }
+  (* two constructs with a literal run between them: the first one's end must not be looked for past its own close *)
+  \cup { Cat(Cat(Cat(Cat(ChunkP(c1), s1), ChunkP(c2)), s2), ChunkP(c3)) :
+            c1 \in {<<>>, S2B("a")}, c3 \in {<<>>, S2B("b")}, c2 \in {c \in Chunks : BeforeOK(c)},
+            s1 \in {PrintP, CommentP(S2B(" c ")), CommentP(S2B("- c -")), VerbP(S2B("{{ x }}"))},
+            s2 \in {PrintP, CommentP(S2B(" d ")), CommentP(S2B("- d -")), CommentP(S2B(" d -")), VerbP(S2B("{# x #}"))} }
   \cup { Cat(ChunkP(c1), ChunkP(S2B(" ") \o c2)) : c1 \in Chunks, c2 \in Chunks }
   \cup { Around(Wrap(kd, 1, p)) : kd \in WrapKinds, p \in Inner1 }
   \cup (IF Deep THEN { Around(Wrap(k2, 2, Around(Wrap(k1, 1, p)))) : k1 \in WrapKinds, k2 \in WrapKinds,
